@@ -156,7 +156,10 @@ def check_links(ctx):
         isa = ARCHS[archname]
         code = bytes.fromhex(hexbytes)
         for A in addends:
-            for d in distances(bits, ctx.rng, ctx.thorough):
+            dlist = distances(bits, ctx.rng, ctx.thorough)
+            if rtype in ("cb_imm11", "cbl_imm11"):      # around the relaxation threshold of the rvc jumps
+                dlist = sorted(set(dlist) | {2040, 2046, 2048, 2050, 2998, 4094, 4096, -2044, -2048, -2050, -4096})
+            for d in dlist:
                 if bias is None:          # absolute: the symbol address itself is the value
                     S = d
                     if S < 0:
@@ -260,6 +263,11 @@ def check_links(ctx):
             key = (case["isa"], case["reloc"], case["S"], case["P"], case["addend"])
             rep[key] = m
             if impl.startswith("ok") and m == "ok false":
+                if case.get("relaxed_from"):
+                    ctx.fail(f"link:{case['relaxed_from']}@{case['isa']}:relaxed-{case['region']}",
+                             f"{case['arch']} {case['relaxed_from']}: displacement {case['d']} (symbol at {case['S']}, site at {case['P']}) "
+                             f"lies in {case['region']} and does not fit C.J/C.JAL, but link() relaxed the jump to the 16-bit form", case)
+                    continue
                 ctx.fail(f"link:{case['reloc']}@{case['isa']}:links-{case['region']}",
                          f"{case['arch']} {case['reloc']}: displacement {case['d']} (symbol at {case['S']}, site at {case['P']}, addend "
                          f"{case['addend']}) lies in {case['region']}, is not representable, but link() succeeds", case)
